@@ -212,6 +212,16 @@ func flight0Generate(
 	if err := state.LocalRandom.Populate(); err != nil {
 		return nil, nil, err
 	}
+	// A server that also supports DTLS 1.3 marks its DTLS 1.2 ServerHello: a
+	// client that offered DTLS 1.3 then knows its offer was tampered with.
+	// https://www.rfc-editor.org/rfc/rfc8446#section-4.1.3
+	if cfg.MaxVersion.Equal(protocol.Version1_3) {
+		copy(state.LocalRandom.RandomBytes[handshake.RandomBytesLength-len(downgradeSentinel12):], downgradeSentinel12[:])
+	}
 
 	return nil, nil, nil
 }
+
+// downgradeSentinel12 is the value a server that supports (D)TLS 1.3 puts into
+// the last eight bytes of ServerHello.random when it negotiates (D)TLS 1.2.
+var downgradeSentinel12 = [8]byte{0x44, 0x4F, 0x57, 0x4E, 0x47, 0x52, 0x44, 0x01} //nolint:gochecknoglobals
